@@ -27,7 +27,9 @@ Inductive sres :=
       opposite directions); one case per direction: the i_ fields describe the node that opened the streams, the r_
       fields the node that answered.
       Compared with the final outcome of the cross-dial world of the model under one canonical
-      schedule, and judged by the property checker *)
+      schedule, and judged by the property checker
+   5 .. 10  cross dial under six schedules the driver enforces (see [x2_explains] below and
+      [x_pre] in the model); fields as in class 4, [early] and [ga] compared as well *)
 Record case := {
   id : N;
   klass : N;
@@ -175,7 +177,28 @@ Definition x_explains (c : case) : bool :=
   | None => negb (connect_ok c)
   end && all2 sres_agrees (sA x) (outcomes c).
 
+(* classes 5 .. 10: the cross-dial world under the schedule the driver enforced with its gates and
+   positive synchronisation (model/ConnectRace.v, [x_pre]): Connect result, the streams that had
+   ended while the handlers were still held ([early], counted for this direction), the final
+   outcomes, and the calls of GetAddress by the answering node's handler ([ga]: none when the
+   opener's Connect took the shortcut, one when it dialled) *)
+Definition is_xsched (k : N) : bool := (5 <=? k) && (k <=? 10).
+Definition x2_explains (c : case) : bool :=
+  let a := ini (cfg_of c) in
+  let b := rsp (cfg_of c) in
+  let n := N.to_nat (nstreams c) in
+  let xg := xrun a b (x_sched_gate (klass c) n) in
+  let x := xrun a b (x_sched_end (klass c) n) in
+  match ret1 x with
+  | Some (a, t) => connect_ok c && (a =? addrN (ret_addr c)) && (t =? ret_type c)
+  | None => negb (connect_ok c)
+  end && all2 sres_agrees (sA x) (outcomes c) &&
+  (N.of_nat (length (filter finished (sA xg))) =? early c) &&
+  (N.of_nat (ga_calls (h1 x)) =? ga c).
+
 Definition agrees (c : case) : bool :=
+  if is_xsched (klass c) then x2_explains c
+  else
   if klass c =? 4 then x_explains c
   else
   if klass c =? 3 then
